@@ -90,6 +90,35 @@ func (c C4) XGo_Enum() func(yield func(int, int) bool) {
 	}
 }
 
+type C5 []int // a named slice with its own enumerator: elements in reverse order
+
+type It5 struct {
+	s []int
+	i int
+}
+
+func (p *It5) Next() (int, bool) {
+	if p.i > 0 {
+		p.i--
+		return p.s[p.i], true
+	}
+	return 0, false
+}
+
+func (c C5) XGo_Enum() *It5 { return &It5{s: c, i: len(c)} }
+
+type C6 int // a named integer with an iterator-function enumerator: the squares 1, 4, 9, ...
+
+func (c C6) XGo_Enum() func(yield func(int) bool) {
+	return func(yield func(int) bool) {
+		for i := 1; i <= int(c); i++ {
+			if !yield(i * i) {
+				return
+			}
+		}
+	}
+}
+
 type MI int8
 type MS string
 
@@ -184,6 +213,38 @@ func c11ParseBTI(repo string) ([]c11BTI, error) {
 	return out, nil
 }
 
+// the documented desugaring of the builtin-type methods (type|method -> target and extra arguments)
+var c11Documented = map[string]c11BTI{}
+
+func init() {
+	add := func(typ, method, target string, ex ...string) {
+		c11Documented[typ+"|"+method] = c11BTI{Typ: typ, Method: method, Target: target, Exargs: ex}
+	}
+	const S = "types.Typ[types.String]"
+	add("types.Typ[types.Float64]", "String", "strconv.FormatFloat", "'g'", "-1", "64")
+	add("types.Typ[types.Int]", "String", "strconv.Itoa")
+	add("types.Typ[types.Int64]", "String", "strconv.FormatInt", "10")
+	add("types.Typ[types.Uint64]", "String", "strconv.FormatUint", "10")
+	add(S, "Len", "len")
+	add(S, "Int", "strconv.Atoi")
+	add(S, "Int64", "strconv.ParseInt", "10", "64")
+	add(S, "Uint64", "strconv.ParseUint", "10", "64")
+	add(S, "Float", "strconv.ParseFloat", "64")
+	add(S, "Quote", "strconv.Quote")
+	add(S, "Unquote", "strconv.Unquote")
+	for _, m := range []string{"Count", "Index", "IndexAny", "IndexByte", "IndexRune", "LastIndex", "LastIndexAny", "LastIndexByte", "Contains", "ContainsAny", "ContainsRune",
+		"Compare", "EqualFold", "HasPrefix", "HasSuffix", "ToTitle", "ToUpper", "ToLower", "Fields", "Repeat", "Split", "SplitAfter", "SplitN", "SplitAfterN", "Replace", "ReplaceAll",
+		"Trim", "TrimSpace", "TrimLeft", "TrimRight", "TrimPrefix", "TrimSuffix"} {
+		add(S, m, "strings."+m)
+	}
+	add("types.NewSlice(types.Typ[types.String])", "Len", "len")
+	add("types.NewSlice(types.Typ[types.String])", "Cap", "cap")
+	add("types.NewSlice(types.Typ[types.String])", "Join", "strings.Join")
+	add("tySlice", "Len", "len")
+	add("tySlice", "Cap", "cap")
+	add("tyChan", "Len", "len")
+}
+
 // ---- the program under construction ----
 
 type c11Prog struct {
@@ -214,6 +275,7 @@ func (p *c11Prog) guard(what string, f func()) (ok bool) {
 		if e := recover(); e != nil {
 			p.faults = append(p.faults, directViolation{Case: p.n, What: what + ": the builder faults: " + fmt.Sprint(e), Replay: map[string]any{"scenario": what}})
 			ok = false
+			p.n++ // the name T<n> is taken by the unfinished function
 		}
 	}()
 	f()
@@ -362,7 +424,7 @@ func (p *c11Prog) boolCast() {
 // user-defined enumerators
 func (p *c11Prog) enum() {
 	n := p.n
-	shape := 1 + p.r.Intn(4)
+	shape := 1 + p.r.Intn(6)
 	two := shape == 2 || shape == 4
 	skip, stop := p.r.Intn(6), p.r.Intn(8)
 	useRet := p.r.Intn(3) == 0
@@ -405,7 +467,14 @@ func (p *c11Prog) enum() {
 	if two {
 		add = " + k*100"
 	}
-	fmt.Fprintf(&p.ref, "func R%d(c C%d) int {\n\ts := 0\n\tfor k, v := range c.s {\n\t\t_ = k\n\t\tif v == %d {\n\t\t\tcontinue\n\t\t}\n\t\tif v == %d {\n\t\t\t%s\n\t\t}\n\t\ts = s*10 + v%s\n\t}\n\treturn s\n}\n", n, shape, skip, stop, stopStmt, add)
+	elems := "c.s"
+	switch shape {
+	case 5:
+		elems = "rev5(c)"
+	case 6:
+		elems = "squares6(c)"
+	}
+	fmt.Fprintf(&p.ref, "func R%d(c C%d) int {\n\ts := 0\n\tfor k, v := range "+elems+" {\n\t\t_ = k\n\t\tif v == %d {\n\t\t\tcontinue\n\t\t}\n\t\tif v == %d {\n\t\t\t%s\n\t\t}\n\t\ts = s*10 + v%s\n\t}\n\treturn s\n}\n", n, shape, skip, stop, stopStmt, add)
 	ctor := fmt.Sprintf("C%d", shape)
 	var lists []string
 	for i, in := range c11EnumInputs {
@@ -414,17 +483,31 @@ func (p *c11Prog) enum() {
 			es = append(es, fmt.Sprint(v))
 		}
 		lit := ctor + "{s: []int{" + strings.Join(es, ", ") + "}}"
+		switch shape {
+		case 5:
+			lit = "C5{" + strings.Join(es, ", ") + "}"
+		case 6:
+			lit = fmt.Sprintf("C6(%d)", len(in))
+		}
 		lists = append(lists, lit)
-		fmt.Fprintf(&p.main, "\tfmt.Printf(\"ENUM %d %d %%d\\n\", T%d(%s))\n", n, i, n, lit)
+		if shape <= 4 {
+			fmt.Fprintf(&p.main, "\tfmt.Printf(\"ENUM %d %d %%d\\n\", T%d(%s))\n", n, i, n, lit)
+		}
 	}
 	p.compare(n, what, lists...)
-	p.enums[n] = c11Enum{skip, stop, useRet, two}
+	if shape <= 4 {
+		p.enums[n] = c11Enum{skip, stop, useRet, two}
+	}
 	p.n++
 }
 
 // inline closure calls: arguments are bound once, in order
 func (p *c11Prog) inline() {
 	n := p.n
+	if p.r.Intn(4) == 0 {
+		p.inline2()
+		return
+	}
 	variant := []int{0, 2, 3}[p.r.Intn(3)]
 	what := []string{"inline func(x, y int) int { return x + x + y }(note(1), note(2))", "inline func(x, y int) int { return y }(note(1), note(2))",
 		"inline func(x int) int { if x > 0 { return 1 }; return 2 }(note(k))", "inline func(xs ...int) int { return len(xs)*10 + xs[0] }(note(4), note(5))"}[variant]
@@ -479,6 +562,37 @@ func (p *c11Prog) inline() {
 	p.n++
 }
 
+// inline closure with two results and an early return: q, r := func(x, y int) (int, int) {...}(note(a), note(b))
+func (p *c11Prog) inline2() {
+	n := p.n
+	a, bv := 10+p.r.Intn(20), p.r.Intn(4)
+	what := fmt.Sprintf("q, r := inline func(x, y int) (int, int) { if y == 0 { return -1, x }; return x / y, x %% y }(note(%d), note(%d))", a, bv)
+	logT := types.NewPointer(types.NewSlice(tyInt))
+	note := p.tpkg.Scope().Lookup("note")
+	ok := p.guard(what, func() {
+		lg := p.param("log", logT)
+		cb := p.pkg.NewFunc(nil, fmt.Sprintf("T%d", n), types.NewTuple(lg), types.NewTuple(p.param("", tyInt), p.param("", tyInt)), false).BodyStart(p.pkg)
+		x, y := p.param("x", tyInt), p.param("y", tyInt)
+		sig := types.NewSignatureType(nil, nil, nil, types.NewTuple(x, y), types.NewTuple(p.param("", tyInt), p.param("", tyInt)), false)
+		cb.DefineVarStart(token.NoPos, "q", "r")
+		cb.Val(note).Val(lg).Val(a).Call(2)
+		cb.Val(note).Val(lg).Val(bv).Call(2)
+		cb.CallInlineClosureStart(sig, 2, false)
+		cb.If().Val(y).Val(0).BinaryOp(token.EQL).Then().Val(-1).Val(x).Return(2).End()
+		cb.Val(x).Val(y).BinaryOp(token.QUO).Val(x).Val(y).BinaryOp(token.REM).Return(2)
+		cb.End()
+		cb.EndInit(2)
+		cb.Val(cb.Scope().Lookup("q")).Val(cb.Scope().Lookup("r")).Return(2).End()
+	})
+	if !ok {
+		return
+	}
+	fmt.Fprintf(&p.ref, "func R%d(log *[]int) (int, int) {\n\tx, y := note(log, %d), note(log, %d)\n\tif y == 0 {\n\t\treturn -1, x\n\t}\n\treturn x / y, x %% y\n}\n", n, a, bv)
+	p.descr[n] = what
+	fmt.Fprintf(&p.main, "\tcheck(%d, func() string { var l []int; q, r := T%d(&l); return fmt.Sprint(q, r, l) }, func() string { var l []int; q, r := R%d(&l); return fmt.Sprint(q, r, l) })\n", n, n, n)
+	p.n++
+}
+
 // method alias / auto property
 func (p *c11Prog) alias() {
 	n := p.n
@@ -507,7 +621,7 @@ func (p *c11Prog) alias() {
 }
 
 var c11Samples = map[string][]string{
-	"string": {`"a,b,a"`, `","`, `"a"`, `"x"`}, "int": {"2", "-1"}, "byte": {"'a'"}, "rune": {"'b'"}, "int32": {"'b'"}, "uint8": {"'a'"},
+	"string": {`"a,b,a"`, `","`, `"a"`, `"x"`, `"0.1"`, `"2.718281828459045"`, `"1e40"`, `"42"`, `"-7"`, `"\"q\""`}, "int": {"2", "-1"}, "byte": {"'a'"}, "rune": {"'b'"}, "int32": {"'b'"}, "uint8": {"'a'"},
 	"[]string": {`[]string{"x", "y"}`}, "[]int": {"[]int{1, 2, 3}"}, "chan int": {"make(chan int, 3)"}, "float64": {"2.5"}, "int64": {"-7"}, "uint64": {"9"},
 }
 
@@ -547,6 +661,18 @@ func (p *c11Prog) bti(e c11BTI, imp types.Importer, named bool, lower bool) {
 	}
 	if variadic {
 		return
+	}
+	if doc, ok := c11Documented[e.Typ+"|"+e.Method]; ok {
+		if doc.Target != e.Target || strings.Join(doc.Exargs, ",") != strings.Join(e.Exargs, ",") {
+			if !named && !lower {
+				p.faults = append(p.faults, directViolation{Case: n, What: fmt.Sprintf("builtin-type method %s.%s is wired to %s%v; the documented desugaring is %s%v", recvT, e.Method, e.Target, e.Exargs, doc.Target, doc.Exargs),
+					Replay: map[string]any{"scenario": "builtin-type method table", "type": e.Typ, "method": e.Method, "found": e, "documented": doc}})
+			}
+			e.Target, e.Exargs = doc.Target, doc.Exargs // the reference function is the documented one
+			if e.Target != "len" && e.Target != "cap" {
+				// the signature is still taken from the target the table names; if the targets differ the comparison below decides
+			}
+		}
 	}
 	name := e.Method
 	if lower {
@@ -670,9 +796,16 @@ func runC11(a *runArgs) error {
 	}
 	c11UnusedParam(m, imp, tpkg)
 	var gen bytes.Buffer
-	if err := p.pkg.WriteTo(&gen); err != nil {
-		m.Direct = append(m.Direct, directViolation{What: "WriteTo faults: " + err.Error(), Replay: map[string]any{}})
-	}
+	func() {
+		defer func() {
+			if e := recover(); e != nil {
+				m.Direct = append(m.Direct, directViolation{What: "WriteTo faults (a function was left unfinished by an earlier fault): " + fmt.Sprint(e), Replay: map[string]any{}})
+			}
+		}()
+		if err := p.pkg.WriteTo(&gen); err != nil {
+			m.Direct = append(m.Direct, directViolation{What: "WriteTo faults: " + err.Error(), Replay: map[string]any{}})
+		}
+	}()
 	// functions Go rejects are reported one by one and taken out, so that the others still run
 	genSrc := gen.String()
 	mainSrc := p.main.String()
@@ -745,6 +878,22 @@ func runC11(a *runArgs) error {
 var data1 any = map[string]any{"x": 1, "y": "s", "k": "t", "next": map[string]any{"x": map[string]any{"y": 7, "k": 2}, "next": map[string]any{"k": 1}}}
 var data2 any = map[string]any{"y": "s", "k": 1, "x": map[string]any{"x": 5, "y": map[string]any{"k": "deep"}}}
 var data3 any = map[string]any{"k": 9}
+
+func rev5(c C5) []int {
+	out := make([]int, 0, len(c))
+	for i := len(c) - 1; i >= 0; i-- {
+		out = append(out, c[i])
+	}
+	return out
+}
+
+func squares6(c C6) []int {
+	var out []int
+	for i := 1; i <= int(c); i++ {
+		out = append(out, i*i)
+	}
+	return out
+}
 
 func check(n int, t, r func() string) {
 	run := func(f func() string) (s string) {
